@@ -54,7 +54,10 @@ type schedFS struct {
 	// stepNow returns the index of the plan step the foreground is executing;
 	// fg is the goroutine id of the foreground (never held).
 	stepNow func() int64
+	trace   func(format string, args ...interface{})
 	holds   atomic.Int64
+	holding atomic.Int64 // goroutines currently parked in a MANIFEST-sync hold
+	ops     atomic.Int64 // completed mutating operations (all goroutines)
 	sp      *SchedPlan
 	n   atomic.Int64
 	cnt atomic.Int64 // pauses taken
@@ -68,6 +71,7 @@ func newSchedFS(inner vfs.FS, sp *SchedPlan) *schedFS {
 }
 
 func (s *schedFS) after(kind, path string) {
+	s.ops.Add(1)
 	if !s.on.Load() || s.sp.Pct <= 0 {
 		return
 	}
@@ -149,6 +153,25 @@ func (s *schedFS) Rename(oldname, newname string) error {
 	return err
 }
 
+// waitHold lets the foreground yield (bounded) until some background goroutine
+// is parked in a MANIFEST-sync hold. Only shapes the schedule.
+func (s *schedFS) waitHold() bool {
+	if s == nil || s.sp.HoldManifest <= 0 {
+		return false
+	}
+	for i := 0; i < 200000; i++ {
+		if s.holding.Load() > 0 {
+			return true
+		}
+		runtime.Gosched()
+	}
+	return false
+}
+
+// DebugHoldStacks dumps all goroutines when a hold ends because nothing else
+// made progress (debugging aid).
+var DebugHoldStacks bool
+
 type schedFile struct {
 	vfs.File
 	s    *schedFS
@@ -167,8 +190,29 @@ func (f *schedFile) holdManifestSync() {
 	}
 	s0 := s.stepNow()
 	s.holds.Add(1)
-	for i := 0; i < 30000 && s.on.Load(); i++ {
+	s.holding.Add(1)
+	defer s.holding.Add(-1)
+	if s.trace != nil {
+		s.trace("HOLD manifest sync begins at step %d", s0)
+		defer func() { s.trace("HOLD manifest sync ends at step %d", s.stepNow()) }()
+	}
+	// Held while the rest of the system makes progress (file-system operations
+	// by other goroutines: the foreground may take a crash image per operation,
+	// which is slow compared to a yield); released after 30000 consecutive
+	// yields without any (the foreground is then waiting for this very edit, or
+	// computing), or after a generous total.
+	last, idle := s.ops.Load(), 0
+	for i := 0; i < 3000000 && s.on.Load(); i++ {
 		if s.stepNow() >= s0+int64(s.sp.HoldManifest) {
+			return
+		}
+		if cur := s.ops.Load(); cur != last {
+			last, idle = cur, 0
+		} else if idle++; idle > 30000 {
+			if s.trace != nil && DebugHoldStacks {
+				buf := make([]byte, 1<<20)
+				s.trace("HOLD idle exit; goroutines:\n%s", buf[:runtime.Stack(buf, true)])
+			}
 			return
 		}
 		runtime.Gosched()
